@@ -569,3 +569,66 @@ func c08r10(c *RC) {
 	}
 	c.Floor("composed boolean pragmas", n, 2)
 }
+
+// C11-R9: a column is bound over the frame's whole capacity.
+//
+// data.val "represents the whole data slice": Index, Value and the computed
+// operators (Less, Hash, Swap) are closures over the value handed to newData,
+// and they can address only its *length*.  A frame records a capacity, and
+// Slice, Grow and Ensure extend a view up to it without reallocating; if a
+// column was bound to a value shorter than that capacity, the extended rows
+// cannot be read, compared, hashed, swapped or sorted (reflect index panics),
+// and Value returns a column shorter than the frame.  So every value handed to
+// newData in a function that builds a Frame must have length == the capacity
+// the frame records there: reflect.MakeSlice(t, c, c) with one expression for
+// length and capacity, or X.Slice(0, F.cap) / X.Slice3(0, F.cap, F.cap) with F
+// the frame under construction.  (Found frame.Slices/Values, which recorded
+// Cap() of the caller's slices but bound the slices as given.)
+func c11r9(c *RC) {
+	pr := c.P
+	n := 0
+	for _, fn := range pr.FuncsIn("frame") {
+		if fn.Body == nil || fn.Parent != nil {
+			continue
+		}
+		fq := fn.QName()
+		le := newLinEnv(pr, fn)
+		for _, k := range callsIn(fn.Body) {
+			if fn.Pkg.CalleeName(k) != "frame.newData" || len(k.Args) != 1 {
+				continue
+			}
+			n++
+			arg := ast.Unparen(k.Args[0])
+			if id, ok := arg.(*ast.Ident); ok {
+				if d, ok := le.defs[fn.Pkg.Info.Uses[id]]; ok {
+					arg = ast.Unparen(d)
+				}
+			}
+			ok := false
+			why := "the value is bound as given, so the column's length is whatever the caller's slice has"
+			if call, isCall := arg.(*ast.CallExpr); isCall {
+				switch cn := fn.Pkg.CalleeName(call); {
+				case cn == "reflect.MakeSlice" && len(call.Args) == 3:
+					a, b := le.norm(call.Args[1], 0), le.norm(call.Args[2], 0)
+					ok = a.String() == b.String()
+					why = "MakeSlice is given a length different from its capacity"
+				case (cn == "reflect.Value.Slice" && len(call.Args) == 2) || (cn == "reflect.Value.Slice3" && len(call.Args) == 3):
+					lo, isC := constInt(fn.Pkg, call.Args[0])
+					hi := ast.Unparen(call.Args[1])
+					capField := false
+					if se, isSel := hi.(*ast.SelectorExpr); isSel && pr.fieldQName(fn.Pkg.FieldOf(se)) == "frame.Frame.cap" {
+						capField = true
+					}
+					ok = isC && lo == 0 && capField
+					if ok && len(call.Args) == 3 {
+						ok = nospace(call.Args[2]) == nospace(call.Args[1])
+					}
+					why = "the value is not re-sliced to [0, the frame's cap)"
+				}
+			}
+			c.Check(ok, fq+"|column-bound-over-the-capacity", pr.Pos(k.Pos()),
+				strings.TrimPrefix(fq, "frame.")+" binds a column with newData("+expr(k.Args[0])+") but "+why+": the frame records a capacity that Slice, Grow and Ensure extend views into, while Index, Value, Less, Hash and Swap address only the bound value's length — rows of a grown view within that capacity cannot be read or sorted, and Value returns a column shorter than the frame")
+		}
+	}
+	c.Floor("columns bound by newData in package frame", n, 3)
+}
